@@ -108,6 +108,48 @@ Definition enc_objs (om : omapT) : Z := fold_left (fun acc kp => acc * 32 + Z.of
    touched (the found / removed / copied object), for the reference counts *)
 Definition apply_sop (o : sop) (arg : ptr) (om : omapT) (tm : tmapT) : omapT * tmapT * Z * option ptr :=
   match o with
+  | Add n _ =>          (* tags left for this name by addType on an absent object do not belong to the new one *)
+    match lookup n om with
+    | Some _ => (om, tm, 0, None)
+    | None => (ins n arg om, del n tm, 1, None)
+    end
+  | AddT n _ ty =>
+    match lookup n om with
+    | Some _ => (om, tm, 0, None)
+    | None => (ins n arg om, put n [ty] tm, 1, None)
+    end
+  | AddType n ty =>
+    (om, put n (match lookup n tm with Some ts => ts ++ [ty] | None => [ty] end) tm, 0, None)
+  | RemName n =>
+    match lookup n om with
+    | Some p => (del n om, del n tm, 1, Some p)
+    | None => (om, tm, 0, None)
+    end
+  | Copy a b =>
+    match lookup a om with
+    | Some p =>
+      match lookup b om with
+      | Some _ => (om, tm, 0, None)
+      | None => (ins b p om, match lookup a tm with Some ts => put b ts tm | None => del b tm end, 1, Some p)
+      end
+    | None => (om, tm, 0, None)
+    end
+  | FindName n _ =>
+    match lookup n om with
+    | Some p => (om, tm, Z.of_nat (pid p), Some p)
+    | None => (om, tm, 0, None)
+    end
+  | CheckType n ty => (om, tm, b2z (has_tag ty n tm), None)
+  | GetObjects => (om, tm, enc_objs om, None)
+  | Empty => (om, tm, b2z (match om with [] => true | _ => false end), None)
+  end.
+
+(* the same before repair c9feeb7 (typeMap.emplace never replaced an entry left by addType on an absent
+   name, and a plain addObject did not clear it): kept only for soh_orphan_leak_refuted.
+   effect of a simple method on the two maps, its result, and the pointer it
+   touched (the found / removed / copied object), for the reference counts *)
+Definition apply_sop_leaky (o : sop) (arg : ptr) (om : omapT) (tm : tmapT) : omapT * tmapT * Z * option ptr :=
+  match o with
   | Add n _ =>
     match lookup n om with
     | Some _ => (om, tm, 0, None)
@@ -142,6 +184,14 @@ Definition apply_sop (o : sop) (arg : ptr) (om : omapT) (tm : tmapT) : omapT * t
   | CheckType n ty => (om, tm, b2z (has_tag ty n tm), None)
   | GetObjects => (om, tm, enc_objs om, None)
   | Empty => (om, tm, b2z (match om with [] => true | _ => false end), None)
+  end.
+
+Definition apply_sop_gen (leaky : bool) := if leaky then apply_sop_leaky else apply_sop.
+(* a sequence of simple methods run alone, from the empty maps *)
+Fixpoint seq_run (leaky : bool) (os : list (sop * ptr)) (om : omapT) (tm : tmapT) : omapT * tmapT :=
+  match os with
+  | [] => (om, tm)
+  | (o, a) :: r => let '(om', tm', _, _) := apply_sop_gen leaky o a om tm in seq_run leaky r om' tm'
   end.
 
 Definition ptest (o : pop) (tm : tmapT) (k : Z) (p : ptr) : bool :=
